@@ -180,7 +180,9 @@ class C04(Cfg):
 
 class C05(Cfg):
     rule = ("CUTALL <message>: well-formed messages, EVERY cut position 0..len-1 of each (exhaustive per message), both "
-            "storage modes, parser and skipper; non-trivial = message longer than its headers; distinct by request")
+            "storage modes, parser and skipper; CUTS <step> <message>: messages whose length field is 32768, 65519..65521, "
+            "65534, 65535 (both storage modes, minimal and full headers) at the first and last 64 cuts and every step-th "
+            "in between; non-trivial = message longer than its headers; distinct by request")
     observable = "(number of cut positions not reported incomplete with a hint in [1, missing])"
     explanation = ("C05_prefix proves incompleteness with a safe hint for every proper prefix of every well-formed message; "
                    "fine_agreement compares a hash of the exact hints of all cuts (not an alarm condition)")
@@ -193,6 +195,8 @@ class C05(Cfg):
         if not mm:
             return "CUTALL:" + ans.split(" ", 1)[0]
         n = int(mm.group(1))
+        if n > 30000:
+            return "CUTS:len=%d:bad=%s" % (n, "0" if mm.group(2) == "0" else ">0")
         return "CUTALL:len<%d:bad=%s" % (50 * (n // 50 + 1), "0" if mm.group(2) == "0" else ">0")
 
 
@@ -404,7 +408,9 @@ class C19(Cfg):
 class C06(Cfg):
     rule = ("FWD <bytes> (strings rich in pattern fragments: partial patterns at the end, overlapping starts 44 4C 44 4C 54 01, "
             "pattern at 0, several patterns, none), JUNK <junk> <message> <suffix> (junk of 0..40 bytes without an occurrence "
-            "starting inside it, incl. lone 'D's and pattern fragments), STREAM of 1..6 messages with junk between; "
+            "starting inside it, incl. lone 'D's and pattern fragments; and junk of 65535..140000 bytes, longer than a maximal "
+            "message), JUNKF <filter> <junk> <message> <suffix> (the same through a filter: same verdict and remainder whether "
+            "the message is delivered or dropped), STREAM of 1..6 messages with junk between; "
             "non-trivial = pattern present / junk non-empty; distinct by request")
     observable = "(offset | none, remainder length) / (same parse as without junk?, class) / (messages recovered, all equal?)"
     explanation = ("C06_search_some/none (first occurrence, exactly), C06_junk, C06_noD_junk, C06_no_border, C06_stream "
@@ -419,10 +425,13 @@ class C06(Cfg):
         return True
 
     def classify(self, req, ans, m=None):
-        return req.split(" ", 1)[0] + ":" + ans.split(" ", 1)[0]
+        c = req.split(" ", 1)[0] + ":" + ans.split(" ", 1)[0]
+        if req.startswith("JUNKF"):
+            c += ":" + ans.split(" ")[-1].split(":")[0]
+        return c
 
     def spec_ok(self, req, ans, spec):
-        return not req.startswith("FWD") or ans == spec
+        return not req.startswith("FWD") or spec == "skip" or ans == spec
 
 
 class C07(Cfg):
